@@ -411,9 +411,11 @@ package store
 // OnDelete handlers: user code, wrapped by OnDelete$1 so that a panic becomes an error. A handler may read the
 // store but is assumed not to write it.
 //@ ghost var hCalls int -- number of OnDelete handler invocations so far
+//@ ghost var hFailed bool -- some OnDelete handler invocation so far returned an error
 //@ field store.(*Store).deleteSingle.deleteFn(ctx, height)
 //@   modifies ghost:hcHas, ghost:hcVal, ghost:icHas, ghost:icVal -- a handler may read the store: the read-through caches may (re)cache anything the store serves
 //@   effect hCalls := old(hCalls) + 1
+//@   effect hFailed := old(hFailed) || result != nil
 //@   ensures hdrCacheOK() && idxCacheOK()
 
 // the header to delete is found through the on-disk index or, when not flushed yet, in the pending batch
@@ -424,10 +426,11 @@ package store
 //@   unreachable return2 : datastore read errors other than ErrNotFound are not modelled (store.spec)
 //@   requires storeINV(s) && !isBatch(s.ds)
 //@   ghost herr error := result0 of call deleteFn #0
-//@   modifies $now, ghost:hcHas, ghost:hcVal, ghost:icHas, ghost:icVal, ghost:hCalls, ghost:dsHas, ghost:dsWrites, ghost:dsDeletes, MH_Int_Hdr_has, MH_Str_Int_has
+//@   modifies $now, ghost:hcHas, ghost:hcVal, ghost:icHas, ghost:icVal, ghost:hCalls, ghost:hFailed, ghost:dsHas, ghost:dsWrites, ghost:dsDeletes, MH_Int_Hdr_has, MH_Str_Int_has
 //@   before deleteFn [C14] still-readable: dsHas == old(dsHas) && dsVal == old(dsVal) && unchanged("MH_Int_Hdr_has") && unchanged("MH_Str_Int_has") && (dsHas[kHeight(height)] || has(s.pending.headers, height))
 //@   ensures [C08] inv: storeINV(s)
 //@   ensures [C14] all-handlers-ran: result == nil ==> hCalls == old(hCalls) + len(onDelete)
+//@   ensures [C14] removed-only-if-no-handler-failed: result == nil ==> hFailed == old(hFailed) -- the header goes only after ALL handlers returned nil
 //@   ensures [C14] handler-error-keeps-header: called(herr) && herr != nil ==> result != nil && dsHas == old(dsHas) && dsDeletes == old(dsDeletes) && unchanged("MH_Int_Hdr_has")
 //@   ensures [C08] removed: result == nil ==> !dsHas[kHeight(height)] && !dsHas[kHash(old(hashAt(s, height)))] && !icHas[height] && !hcHas[hexStr(old(hashAt(s, height)))] && !has(s.pending.headers, height)
 //@   ensures [C08] others-untouched: forall k Key @ dsHas[k] :: k != kHeight(height) && k != kHash(old(hashAt(s, height))) ==> (dsHas[k] <==> old(dsHas)[k])
@@ -437,6 +440,7 @@ package store
 //@ loop 0:
 //@   invariant bounds: -1 <= rangeindex && rangeindex + 1 <= len(onDelete)
 //@   invariant counted: hCalls == old(hCalls) + rangeindex + 1
+//@   invariant no-failure-yet: hFailed == old(hFailed)
 //@   invariant caches: hdrCacheOK() && idxCacheOK()
 //@   invariant untouched: dsHas == old(dsHas) && dsVal == old(dsVal) && dsDeletes == old(dsDeletes) && unchanged("MH_Int_Hdr_has") && unchanged("MH_Str_Int_has") && (dsHas[kHeight(height)] || has(s.pending.headers, height)) && hash == hashAt(s, height)
 
@@ -445,7 +449,7 @@ package store
 //@ func (*Store).deleteSequential(s, ctx, from, to)
 //@   props C08, C14
 //@   requires storeINV(s) && !isBatch(s.ds) && from <= to && to - from < 4611686018427387904
-//@   modifies $now, ghost:hcHas, ghost:hcVal, ghost:icHas, ghost:icVal, ghost:hCalls, ghost:dsHas, ghost:dsWrites, ghost:dsDeletes, MH_Int_Hdr_has, MH_Str_Int_has
+//@   modifies $now, ghost:hcHas, ghost:hcVal, ghost:icHas, ghost:icVal, ghost:hCalls, ghost:hFailed, ghost:dsHas, ghost:dsWrites, ghost:dsDeletes, MH_Int_Hdr_has, MH_Str_Int_has
 //@   ensures [C08] inv: storeINV(s)
 //@   ensures [C08] progress-bounds: from <= result0 && result0 <= to
 //@   ensures [C08] complete-on-success: result2 == nil ==> result0 == to
@@ -503,7 +507,7 @@ package store
 //@ func (*Store).deleteParallel(s, ctx, from, to)
 //@   props C08, C14
 //@   requires storeINV(s) && !isBatch(s.ds) && from <= to && deleteRangeParallelThreshold > 0
-//@   modifies $now, ghost:hcHas, ghost:hcVal, ghost:icHas, ghost:icVal, ghost:hCalls, ghost:dsHas, ghost:dsWrites, ghost:dsDeletes, MH_Int_Hdr_has, MH_Str_Int_has, EH_Int, F_store_result_err, F_store_result_height, F_store_result_missing, EH_Err, F_keytransform_Datastore_KeyTransform, F_keytransform_Datastore_child, F_sync_Once__, F_sync_Once_done, F_sync_Once_m, ghost:dsVal
+//@   modifies $now, ghost:hcHas, ghost:hcVal, ghost:icHas, ghost:icVal, ghost:hCalls, ghost:hFailed, ghost:dsHas, ghost:dsWrites, ghost:dsDeletes, MH_Int_Hdr_has, MH_Str_Int_has, EH_Int, F_store_result_err, F_store_result_height, F_store_result_missing, EH_Err, F_keytransform_Datastore_KeyTransform, F_keytransform_Datastore_child, F_sync_Once__, F_sync_Once_done, F_sync_Once_m, ghost:dsVal
 //@   assumes storeINV(s)
 //@   assumes from <= result0 && result0 <= to && (result2 == nil ==> result0 == to)
 //@   assumes forall h uint64 :: from <= h && h < result0 ==> gone(s, h)
@@ -517,7 +521,7 @@ package store
 //@ func (*Store).deleteRangeRaw(s, ctx, from, to)
 //@   props C08, C14
 //@   requires storeINV(s) && !isBatch(s.ds) && from <= to && deleteRangeParallelThreshold > 0 && deleteRangeParallelThreshold <= 4611686018427387904
-//@   modifies $now, ghost:hcHas, ghost:hcVal, ghost:icHas, ghost:icVal, ghost:hCalls, ghost:dsHas, ghost:dsWrites, ghost:dsDeletes, MH_Int_Hdr_has, MH_Str_Int_has, EH_Int, F_store_result_err, F_store_result_height, F_store_result_missing, EH_Err, F_keytransform_Datastore_KeyTransform, F_keytransform_Datastore_child, F_sync_Once__, F_sync_Once_done, F_sync_Once_m, ghost:dsVal
+//@   modifies $now, ghost:hcHas, ghost:hcVal, ghost:icHas, ghost:icVal, ghost:hCalls, ghost:hFailed, ghost:dsHas, ghost:dsWrites, ghost:dsDeletes, MH_Int_Hdr_has, MH_Str_Int_has, EH_Int, F_store_result_err, F_store_result_height, F_store_result_missing, EH_Err, F_keytransform_Datastore_KeyTransform, F_keytransform_Datastore_child, F_sync_Once__, F_sync_Once_done, F_sync_Once_m, ghost:dsVal
 //@   ensures [C08] inv: storeINV(s)
 //@   ensures [C08] progress-bounds: from <= result0 && result0 <= to
 //@   ensures [C08] complete-on-success: result2 == nil ==> result0 == to
@@ -543,7 +547,7 @@ package store
 //@   ghost hderr error := result1 of call Head #0
 //@   ghost tlerr error := result1 of call Tail #0
 //@   ghost wiped error := result0 of call wipe #0
-//@   modifies $now, ghost:hcHas, ghost:hcVal, ghost:icHas, ghost:icVal, ghost:btHas, ghost:btPuts, ghost:btVal, ghost:dsHas, ghost:dsVal, ghost:dsWrites, ghost:dsDeletes, ghost:hCalls, AP_set, AP_val_Hdr, AT_u64, MH_Int_Hdr_has, MH_Int_Hdr_val, MH_Str_Int_has, MH_Str_Int_val, sub.count, MH_Int_Int_has, MH_Int_Int_val, ghost:arrived, EH_Int, F_store_result_err, F_store_result_height, F_store_result_missing, EH_Err, F_keytransform_Datastore_KeyTransform, F_keytransform_Datastore_child, F_sync_Once__, F_sync_Once_done, F_sync_Once_m
+//@   modifies $now, ghost:hcHas, ghost:hcVal, ghost:icHas, ghost:icVal, ghost:btHas, ghost:btPuts, ghost:btVal, ghost:dsHas, ghost:dsVal, ghost:dsWrites, ghost:dsDeletes, ghost:hCalls, ghost:hFailed, AP_set, AP_val_Hdr, AT_u64, MH_Int_Hdr_has, MH_Int_Hdr_val, MH_Str_Int_has, MH_Str_Int_val, sub.count, MH_Int_Int_has, MH_Int_Int_val, ghost:arrived, EH_Int, F_store_result_err, F_store_result_height, F_store_result_missing, EH_Err, F_keytransform_Datastore_KeyTransform, F_keytransform_Datastore_child, F_sync_Once__, F_sync_Once_done, F_sync_Once_m
 //@   ensures [C08] inv: storeINV(s)
 //@   ensures [C08] only-ends: result == nil ==> called(hd) && called(tl) && from < to && ((from == tl.Height() && to <= hd.Height() + 1) || (to == hd.Height() + 1 && from >= tl.Height()))
 //@   ensures [C08] rejected-no-effect: called(hd) && called(tl) && hderr == nil && tlerr == nil && !acceptedRange(from, to, hd, tl) ==> result != nil && dsDeletes == old(dsDeletes) && hCalls == old(hCalls) && apVal(s.contiguousHead) == hd && apVal(s.tailHeader) == tl && apSet(s.contiguousHead) && apSet(s.tailHeader)
